@@ -168,3 +168,22 @@ simple("C11", "model_checking",
        lambda tier: [{"name": "encode-enum", "driver": "drv_encode", "config": "rel", "sources": ["harness/drv_encode.cpp"] + REF_SRC,
                       "flags": REF_FLAGS, "args": [], "kinds": ["encode"]}],
        needs_models=True)
+
+
+# ---- per-property definition files: bin/propdefs/<ID>.py (each may call simple(...) and set META[<ID>]) ----
+META = {}
+
+
+def _load_propdefs():
+    import glob
+    d = os.path.join(os.path.dirname(os.path.abspath(__file__)), "propdefs")
+    for f in sorted(glob.glob(os.path.join(d, "*.py"))):
+        g = dict(globals())
+        g["__file__"] = f
+        with open(f) as fh:
+            exec(compile(fh.read(), f, "exec"), g)
+        for k in ("META",):
+            pass
+
+
+_load_propdefs()
